@@ -163,6 +163,101 @@ impl Drop for LspServer {
     }
 }
 
+/// Run the real `abasic` binary on a program file, and on the same lines + RUN piped into an
+/// interactive session with the same options; compare program output, runtime warnings, trace
+/// records and errors (banner, static-analysis messages are not part of the comparison).
+pub fn cli_compare(w: bool, t: bool, skip: bool, text: &str) -> String {
+    use std::io::Write;
+    let bin = std::env::var("VERIF_CLI_BIN").unwrap_or_else(|_| "/verif/.cache/target-repo/debug/abasic".to_string());
+    let dir = "/verif/.cache/cli";
+    let _ = std::fs::create_dir_all(dir);
+    let path = format!("{}/p{}.bas", dir, std::process::id());
+    if std::fs::write(&path, text).is_err() {
+        return "NO-FILE".to_string();
+    }
+    let mut opts: Vec<&str> = vec![];
+    if w {
+        opts.push("-w");
+    }
+    if t {
+        opts.push("-t");
+    }
+    if skip {
+        opts.push("-s");
+    }
+    let run = |args: Vec<&str>, stdin_text: Option<String>| -> Option<(String, String, i32)> {
+        let mut child = std::process::Command::new(&bin)
+            .args(&args)
+            .env("RUST_BACKTRACE", "0")
+            .env("HOME", dir)
+            .stdin(std::process::Stdio::piped())
+            .stdout(std::process::Stdio::piped())
+            .stderr(std::process::Stdio::piped())
+            .spawn()
+            .ok()?;
+        if let Some(mut si) = child.stdin.take() {
+            if let Some(t) = stdin_text {
+                let _ = si.write_all(t.as_bytes());
+            }
+        }
+        // never wait forever: a program may not terminate
+        let deadline = std::time::Instant::now() + std::time::Duration::from_secs(4);
+        loop {
+            match child.try_wait() {
+                Ok(Some(_)) => break,
+                Ok(None) => {
+                    if std::time::Instant::now() > deadline {
+                        let _ = child.kill();
+                        let _ = child.wait();
+                        return Some(("TIMEOUT".to_string(), String::new(), -2));
+                    }
+                    std::thread::sleep(std::time::Duration::from_millis(5));
+                }
+                Err(_) => return None,
+            }
+        }
+        let out = child.wait_with_output().ok()?;
+        Some((String::from_utf8_lossy(&out.stdout).to_string(), String::from_utf8_lossy(&out.stderr).to_string(), out.status.code().unwrap_or(-1)))
+    };
+    let mut file_args = opts.clone();
+    file_args.push(&path);
+    let Some((fo, fe, _frc)) = run(file_args, None) else { return "NO-BINARY".to_string() };
+    let refused = fe.contains("Please fix the above errors");
+    if refused {
+        let _ = std::fs::remove_file(&path);
+        return "refused".to_string();
+    }
+    let mut piped = String::new();
+    for l in text.split('\n').filter(|l| !l.is_empty()) {
+        piped.push_str(l);
+        piped.push('\n');
+    }
+    piped.push_str("RUN\n");
+    let Some((po, pe, _prc)) = run(opts.clone(), Some(piped)) else { return "NO-BINARY".to_string() };
+    let _ = std::fs::remove_file(&path);
+    if fo == "TIMEOUT" || po == "TIMEOUT" {
+        // a non-terminating program: nothing to compare here (the in-process part bounds its steps)
+        return "same".to_string();
+    }
+    let canon_out = |s: &str| -> String {
+        s.lines().filter(|l| !l.starts_with("Welcome to Atul's BASIC") && !l.starts_with("Press CTRL-C to exit")).collect::<Vec<_>>().join("\n")
+            + if s.ends_with('\n') { "\n" } else { "" }
+    };
+    let canon_err = |s: &str| -> String {
+        s.lines().filter(|l| !l.starts_with("Warning on line ") && !l.starts_with("Errors were encountered")).collect::<Vec<_>>().join("\n")
+    };
+    // rustyline ends a piped session with a bare newline: trailing newlines are not program output
+    let (a, b) = (canon_out(&fo).trim_end_matches('\n').to_string(), canon_out(&po).trim_end_matches('\n').to_string());
+    let (c, d) = (canon_err(&fe), canon_err(&pe));
+    if a == b && c == d {
+        "same".to_string()
+    } else if a != b {
+        format!("DIFF:stdout:{}:{}", hex(&a), hex(&b))
+    } else {
+        format!("DIFF:stderr:{}:{}", hex(&c), hex(&d))
+    }
+}
+
 fn enc_mapped(m: Option<(usize, std::ops::Range<usize>)>) -> String {
     match m {
         None => "-".to_string(),
@@ -274,6 +369,10 @@ impl Session {
             }
             ["fuel", _] => "ok".to_string(),
             ["fold", ..] => "SPEC".to_string(),
+            ["cli", w, t, sk, h] => match unhex(h) {
+                Some(text) => cli_compare(*w == "1", *t == "1", *sk == "1", &text),
+                None => "bad-utf8".to_string(),
+            },
             ["analyze", rest @ ..] => {
                 let text = match rest {
                     [] => Some(String::new()),
